@@ -668,4 +668,44 @@ theorem rt_comp_steps (mk : TK) (marker : Tok) (hmarker : marker.kind = mk) (c :
   intro container
   exact hparseAlias container _ rfl rfl
 
+theorem rt_ingredientP (c : AComp) (p : CPad) (s : BP α) (hwf : c.wf s.cs s.ext = true) (hp : p.ok s.cs = true)
+    (A ts rest : List Tok) (hs : Spells ts (spellIngredient c p)) (ht : s.toks = A ++ (ts ++ rest))
+    (hc : s.cur = A.length) (hrest : restOK c rest = true) (hrun : RunAt (baseOff s.toks) s.toks) :
+    ∃ ing : PIngredient α,
+      ingredientP s = (some (.ingredient ⟨ing, ⟨offAt s.toks A.length, offAt s.toks (A.length + ts.length)⟩⟩),
+        { s with cur := A.length + ts.length }) ∧ IngrMatches s.cs c ing := by
+  obtain ⟨tm, mt, nameT, Q, tob, tcb, name, alias, note, c2, c3, h1, h2, h3, h4, h5, hnameNE, hnameT, haliasT, hnoteT,
+    hmt, hQ, -, hrunQ, hQany⟩ := rt_comp_steps .at (tk .at ['@']) rfl c p s hwf hp A ts rest hs ht hc hrest hrun
+  have hwf' := hwf
+  simp only [AComp.wf, Bool.and_eq_true] at hwf'
+  obtain ⟨⟨⟨⟨⟨⟨⟨⟨hname, hmk⟩, hmnd⟩, hmext⟩, hmhead⟩, hnor⟩, halias⟩, hnote⟩, hqty⟩ := hwf'
+  simp only [CPad.ok, Bool.and_eq_true] at hp
+  obtain ⟨⟨⟨⟨hpn1, hpa0⟩, hpa1⟩, hpq⟩, hpe⟩ := hp
+  obtain ⟨mspan, hpm⟩ := parseModifiers_run (α := α) c.mods mt (offAt s.toks (A.length + 1))
+    ({ s with cur := A.length + ts.length } : BP α) hmt hmk (by simpa using hmnd)
+  have hce := checkEmptyName_run "ingredient" name ({ s with cur := A.length + ts.length } : BP α) hnameNE
+  unfold ingredientP
+  simp only [bind, StateT.bind, currentOffset_run, h1, h2, h3, h4, h5, hce, hpm, hQany]
+  cases hcq : c.qty with
+  | none =>
+    simp only [Option.isSome_none, Bool.false_eq_true, if_false, pure, StateT.pure, hc]
+    refine ⟨_, rfl, ?_⟩
+    refine ⟨hnameT, haliasT, hnoteT, rfl, rfl, ?_⟩
+    rw [hcq]; trivial
+  | some q =>
+    rw [hcq] at hQ hqty
+    simp only [Bool.and_eq_true, Bool.or_eq_true, Bool.not_eq_true'] at hqty
+    obtain ⟨vspan, lspan, unitT, sep, hpq', hl, hunit, hsep⟩ := rt_parseQuantity q p.q
+      ({ s with cur := A.length + ts.length } : BP α) hqty.1.1 hpq
+      (by intro hr; rcases hqty.1.2 with h | h; · rw [hr] at h; cases h
+          · exact h)
+      (by intro ha; rcases hqty.2 with h | h; · rw [ha] at h; cases h
+          · exact h)
+      Q hQ hrunQ
+    simp only [Option.isSome_some, if_true, StateT.bind, hpq', pure, StateT.pure, hc]
+    refine ⟨_, rfl, ?_⟩
+    refine ⟨hnameT, haliasT, hnoteT, rfl, rfl, ?_⟩
+    rw [hcq]
+    exact ⟨rfl, hl, hunit⟩
+
 end Cook
